@@ -461,6 +461,13 @@ class NodeLevel(ast.NodeTransformer):
 # --------------------------------------------------------------------------- block level
 
 
+def unparse_safe(e) -> str:
+    try:
+        return ast.unparse(e)
+    except Exception:  # noqa
+        return ''
+
+
 def _no_effect(e: ast.AST) -> bool:
     """an expression that only builds a value from its operands (constructor of a path, arithmetic, formatting)"""
     for n in ast.walk(e):
@@ -581,8 +588,16 @@ def _load(e):
 
 def _store(e):
     e = copy.deepcopy(e)
-    if hasattr(e, 'ctx'):
-        e.ctx = ast.Store()
+
+    def go(x):
+        if hasattr(x, 'ctx'):
+            x.ctx = ast.Store()
+        if isinstance(x, (ast.Tuple, ast.List)):
+            for y in x.elts:
+                go(y)
+        elif isinstance(x, ast.Starred):
+            go(x.value)
+    go(e)
     return e
 
 
@@ -594,6 +609,8 @@ class BlockLevel:
         self.is_pattern = is_pattern
 
     def run(self):
+        if not self.is_pattern:
+            self.joined_pieces()
         for _ in range(8):
             changed = self.temporaries()
             for owner, field in _blocks(self.fn):
@@ -606,6 +623,76 @@ class BlockLevel:
                 changed = True
             if not changed:
                 break
+
+    def joined_pieces(self) -> bool:
+        """`L = [a, b]` ... `L += [c]` / `L.append(d)` / `L += [f(e) for e in S]` ... `''.join(L)` (L a local used for nothing else)
+        ->  `L = a + b` ... `L += c` / `L += d` / `L += ''.join([f(e) for e in S])` ... `L`:
+        a text assembled from a list of pieces is that text assembled by concatenation (the pieces are strings, or join raises)."""
+        fn = self.fn
+        changed = False
+        for d in [n for n in ast.walk(fn) if isinstance(n, ast.Assign)]:
+            if not (len(d.targets) == 1 and isinstance(d.targets[0], ast.Name) and isinstance(d.value, (ast.List, ast.Tuple)) and not any(isinstance(e, ast.Starred) for e in d.value.elts)):
+                continue
+            name = d.targets[0].id
+            occ = [n for n in ast.walk(fn) if isinstance(n, ast.Name) and n.id == name and n is not d.targets[0]]
+            if not occ or any(a.arg == name for a in getattr(getattr(fn, 'args', None), 'args', [])):
+                continue
+            joins, augs, appends = [], [], []
+            used = set()
+            for n in ast.walk(fn):
+                if isinstance(n, ast.Call) and isinstance(n.func, ast.Attribute) and n.func.attr == 'join' and isinstance(n.func.value, ast.Constant) and n.func.value.value == '' \
+                        and len(n.args) == 1 and not n.keywords and isinstance(n.args[0], ast.Name) and n.args[0].id == name:
+                    joins.append(n)
+                    used.add(id(n.args[0]))
+                elif isinstance(n, ast.AugAssign) and isinstance(n.op, ast.Add) and isinstance(n.target, ast.Name) and n.target.id == name and isinstance(d.value, ast.List) \
+                        and isinstance(n.value, (ast.List, ast.ListComp)) and not any(isinstance(e, ast.Starred) for e in getattr(n.value, 'elts', [])):
+                    augs.append(n)
+                    used.add(id(n.target))
+                elif isinstance(n, ast.Expr) and isinstance(n.value, ast.Call) and isinstance(n.value.func, ast.Attribute) and n.value.func.attr == 'append' and isinstance(d.value, ast.List) \
+                        and isinstance(n.value.func.value, ast.Name) and n.value.func.value.id == name and len(n.value.args) == 1 and not n.value.keywords:
+                    appends.append(n)
+                    used.add(id(n.value.func.value))
+            if len(joins) != 1 or any(id(n) not in used for n in occ):
+                continue
+            if any(isinstance(m, ast.Name) and m.id == name for a in augs + appends for m in ast.walk(a.value if isinstance(a, ast.AugAssign) else a.value.args[0])):
+                continue
+            # the join must come after every addition, in the block of the definition
+            blk = next((getattr(o, f) for o, f in _blocks(fn) if any(st is d for st in getattr(o, f))), None)
+            if blk is None:
+                continue
+            i = next(k for k, st in enumerate(blk) if st is d)
+            holder = next((k for k, st in enumerate(blk) if k > i and any(m is joins[0] for m in ast.walk(st))), None)
+            if holder is None:
+                continue
+            between = {id(m) for st in blk[i + 1:holder] for m in ast.walk(st)}
+            if any(id(a) not in between for a in augs + appends):
+                continue
+            if any(isinstance(m, (ast.FunctionDef, ast.Lambda)) for st in blk[i:holder + 1] for m in ast.walk(st)):
+                continue
+
+            def cat(elts):
+                if not elts:
+                    return ast.Constant(value='')
+                e = elts[0]
+                for x in elts[1:]:
+                    e = NodeLevel().visit_BinOp(ast.BinOp(left=e, op=ast.Add(), right=x))
+                return e
+            d.value = ast.copy_location(cat(list(d.value.elts)), d.value)
+            for a in augs:
+                if isinstance(a.value, ast.List):
+                    a.value = ast.copy_location(cat(list(a.value.elts)), a.value)
+                else:
+                    a.value = ast.copy_location(ast.Call(func=ast.Attribute(value=ast.Constant(value=''), attr='join', ctx=ast.Load()), args=[a.value], keywords=[]), a.value)
+            for o, f in _blocks(fn):
+                stmts = getattr(o, f)
+                for k, st in enumerate(stmts):
+                    if any(st is a for a in appends):
+                        stmts[k] = ast.copy_location(ast.AugAssign(target=ast.Name(id=name, ctx=ast.Store()), op=ast.Add(), value=st.value.args[0]), st)
+            holder_st = blk[holder]
+            _replace_node(holder_st, joins[0], ast.copy_location(ast.Name(id=name, ctx=ast.Load()), joins[0]))
+            ast.fix_missing_locations(fn)
+            changed = True
+        return changed
 
     # ---- one statement list
     def push_return(self, stmts):
@@ -736,7 +823,29 @@ class BlockLevel:
             return stmts[:-3] + [new_if, iff.body[0]]
         return stmts
 
+    @staticmethod
+    def unchain(stmts):
+        """`L = list(chain.from_iterable(f(x) for x in S))`  ->  `L = []` ; `for x in S: L += f(x)`"""
+        out = []
+        for st in stmts:
+            v = st.value if isinstance(st, ast.Assign) and len(st.targets) == 1 and isinstance(st.targets[0], ast.Name) else None
+            if isinstance(v, ast.Call) and isinstance(v.func, ast.Name) and v.func.id == 'list' and len(v.args) == 1 and not v.keywords:
+                c = v.args[0]
+                if isinstance(c, ast.Call) and unparse_safe(c.func) in ('itertools.chain.from_iterable', 'chain.from_iterable') and len(c.args) == 1 and not c.keywords \
+                        and isinstance(c.args[0], (ast.GeneratorExp, ast.ListComp)) and len(c.args[0].generators) == 1 and not c.args[0].generators[0].ifs and not c.args[0].generators[0].is_async:
+                    g = c.args[0].generators[0]
+                    name = st.targets[0].id
+                    if not any(isinstance(m, ast.Name) and m.id == name for m in ast.walk(c)):
+                        out.append(ast.copy_location(ast.Assign(targets=[ast.Name(id=name, ctx=ast.Store())], value=ast.List(elts=[], ctx=ast.Load()), type_comment=None), st))
+                        loop = ast.For(target=_store(copy.deepcopy(g.target)), iter=g.iter, body=[ast.AugAssign(target=ast.Name(id=name, ctx=ast.Store()), op=ast.Add(), value=c.args[0].elt)], orelse=[], type_comment=None)
+                        out.append(ast.fix_missing_locations(ast.copy_location(loop, st)))
+                        continue
+            out.append(st)
+        return out if len(out) != len(stmts) else stmts
+
     def block(self, stmts: list, owner, field) -> list:
+        if not self.is_pattern:
+            stmts = self.unchain(stmts)
         stmts = self.raise_first(stmts)
         stmts = self.local_accumulator(stmts)
         stmts = self.loop_carried(stmts)
